@@ -438,6 +438,8 @@ class PE:
                     return t is ast.Eq
                 if t in (ast.Eq, ast.NotEq) and not (is_scalar(a) and is_scalar(b)):
                     return t is ast.NotEq
+                if t in (ast.Lt, ast.LtE, ast.Gt, ast.GtE) and isinstance(a, Node) and isinstance(b, Node) and a is b:
+                    return t in (ast.LtE, ast.GtE)      # a value compared with itself
                 raise Undecidable(f"comparison {dag.short(a)} {t.__name__} {dag.short(b)}")
             a, b = ca, cb
         f = {ast.Eq: operator.eq, ast.NotEq: operator.ne, ast.Lt: operator.lt, ast.LtE: operator.le,
@@ -873,6 +875,14 @@ class PE:
         idx = self.eval(n.slice, env)
         return self.getitem(base, idx)
 
+    @staticmethod
+    def _one_list_among_ints(key):
+        """position of the single index list in an index tuple whose other entries are integers (a[i, [j, k]])"""
+        lists = [i for i, k in enumerate(key) if isinstance(k, (Arr, list))]
+        if len(lists) != 1 or any(not isinstance(k, int) for i, k in enumerate(key) if i != lists[0]):
+            raise PEError("fancy indexing in tuple not modelled")
+        return lists[0]
+
     def getitem(self, base, idx):
         if isinstance(base, Top):
             return base
@@ -887,7 +897,12 @@ class PE:
                 key = tuple(k if isinstance(k, slice) or k is None or k is Ellipsis or isinstance(k, (Arr, list))
                             else self.as_index(k) for k in idx)
                 if any(isinstance(k, (Arr, list)) for k in key):
-                    raise PEError("fancy indexing in tuple not modelled")
+                    pos = self._one_list_among_ints(key)
+                    sel = [self.as_index(i) for i in (key[pos].flat() if isinstance(key[pos], Arr) else key[pos])]
+                    try:
+                        return Arr.from_nested([self._np_element(base, base[key[:pos] + (j,) + key[pos + 1:]]) for j in sel], base.dtype)
+                    except IndexError as e:
+                        raise PERaise("IndexError", str(e))
             elif isinstance(idx, (slice, Arr, list)) or idx is None or idx is Ellipsis:
                 key = idx
             else:
@@ -1659,7 +1674,11 @@ class PE:
             else:
                 cur[...] = broadcast_to(new, cur.shape) if isinstance(new, Arr) else new
             if isinstance(t, ast.Subscript):
-                return
+                idx = self.eval(t.slice, env)
+                fancy = isinstance(idx, (Arr, list)) or (isinstance(idx, tuple) and any(isinstance(k, (Arr, list)) for k in idx))
+                if not fancy:
+                    return      # a view: written through above
+                # an index list / mask selects a COPY: numpy writes the result back through __setitem__
             self.assign(t, cur, env)
             return
         if isinstance(cur, list) and isinstance(st.op, ast.Add):
@@ -1743,6 +1762,20 @@ class PE:
                 else:
                     for r in rows:
                         base[r] = vals
+                return
+            if isinstance(idx, tuple) and any(isinstance(k, (Arr, list)) for k in idx):
+                key = tuple(k if isinstance(k, (Arr, list)) else self.as_index(k) for k in idx
+                            if not (isinstance(k, slice) or k is None or k is Ellipsis)) if not any(isinstance(k, slice) or k is None or k is Ellipsis for k in idx) else None
+                if key is None:
+                    raise PEError("fancy indexing in tuple not modelled")
+                pos = self._one_list_among_ints(key)
+                sel = [self.as_index(i) for i in (key[pos].flat() if isinstance(key[pos], Arr) else key[pos])]
+                vals = Arr.from_nested(list(v)) if isinstance(v, (list, tuple)) else v
+                try:
+                    for n_, j in enumerate(sel):
+                        base[key[:pos] + (j,) + key[pos + 1:]] = vals[n_] if isinstance(vals, Arr) and vals.shape else vals
+                except IndexError as e:
+                    raise PERaise("IndexError", str(e))
                 return
             if isinstance(idx, tuple):
                 key = tuple(k if isinstance(k, slice) or k is None or k is Ellipsis else self.as_index(k) for k in idx)
